@@ -157,6 +157,21 @@ def runner(rep, tier, seed, replay):
                 rep.violation("no-program-member/%s" % ent, "`%s` (%s): markers %s exit status %s, expected %s and %s (stderr %s)"
                               % (ln, ent, mk, res.get("status"), want, wst, res.get("stderr", "")[-150:]),
                               {"entry": ent, "text": ln}, {"kind": "no-program-member", "entry": ent})
+    # ---- a pipeline that cannot start one of its stages (descriptor limit: the shell prints a `pipeline` diagnostic) has failed:
+    # `&&` does not go on, `||` does
+    fl = [{"entry": "c", "text": "ulimit -n %d ; vmk 1 0 | vio h r <<< hi && vmk 2 0 ; ulimit -n 256 ; vmk 3 0" % n, "timeout": 20, "want_files": False}
+          for n in range(4, 12)]
+    fl += [{"entry": "c", "text": "ulimit -n %d ; vmk 1 0 | vio h r <<< hi || vmk 2 0 ; ulimit -n 256 ; vmk 3 0" % n, "timeout": 20, "want_files": False}
+           for n in range(4, 12)]
+    for j, res in zip(fl, run_cases(fl)):
+        rep.cov["evaluations"] += 1
+        ids = [r.get("id") for r in res.get("log", []) if r.get("h") == "mk"]
+        failed = "cicada: pipeline" in res.get("stderr", "")
+        is_and = "&&" in j["text"]
+        if res.get("timed_out") or "3" not in ids or (failed and (("2" in ids) == is_and)):
+            rep.violation("failed-start/%s" % ("and" if is_and else "or"), "`%s`: markers %s although the pipeline %s (stderr %s)"
+                          % (j["text"], ids, "could not start a stage" if failed else "ran", res.get("stderr", "")[-160:]),
+                          {"entry": "c", "text": j["text"]}, {"kind": "failed-start", "entry": "c"})
     # ---- a background child that ends while a later foreground pipeline of the list is still running must not disturb the
     # list: the pipeline's own status decides && / ||, $? and the exit status (the wait must not be cut short by foreign children)
     bgp = []
